@@ -15,6 +15,9 @@ macro_rules! dispatch {
         match $id {
             "C02" => $f(&props::c02::prop(), $($arg),*),
             "C03" => $f(&props::c03::prop(), $($arg),*),
+            "C04" => $f(&props::c04::prop(), $($arg),*),
+            "C05" => $f(&props::c05::prop(), $($arg),*),
+            "C06" => $f(&props::c06::prop(), $($arg),*),
             other => {
                 eprintln!("unknown property {}", other);
                 2
